@@ -17,12 +17,19 @@ def parse(abbr: str, config: Config):
     Parses given Emmet abbreviation into a final abbreviation tree with all
     required transformations applied
     """
-    snippets = config.cache.get('stylesheet_snippets') if config.cache is not None else None
+    cache = config.cache
+    snippets = None
+
+    # Parsed snippets are reused only for the very snippets they were built from:
+    # the same cache may be shared by configs with different snippets
+    if cache is not None and cache.get('stylesheet_snippets_source') == config.snippets:
+        snippets = cache.get('stylesheet_snippets')
 
     if snippets is None:
         snippets = convert_snippets(config.snippets)
-        if config.cache is not None:
-            config.cache['stylesheet_snippets'] = snippets
+        if cache is not None:
+            cache['stylesheet_snippets'] = snippets
+            cache['stylesheet_snippets_source'] = dict(config.snippets)
 
     if isinstance(abbr, str):
         abbr = abbreviation(abbr, { 'value': is_value_scope(config) })
